@@ -173,7 +173,7 @@ func ParseResolve(text string, sys resolve.System) (*resolve.Graph, error) {
 				Version:     r.requirement,
 			}
 			if err := g.AddError(src, vk, r.err); err != nil {
-				return nil, fmt.Errorf("cannot add an error to %s", g.Nodes[src].Version)
+				return nil, fmt.Errorf("cannot add an error to node %d: %v", src, err)
 			}
 			continue
 		}
@@ -184,7 +184,7 @@ func ParseResolve(text string, sys resolve.System) (*resolve.Graph, error) {
 		}
 
 		if err := g.AddEdge(src, dst, r.requirement, r.dt); err != nil {
-			return nil, fmt.Errorf("cannot create edge from %s to %s", g.Nodes[src].Version, g.Nodes[dst].Version)
+			return nil, fmt.Errorf("cannot create edge from node %d to node %d: %v", src, dst, err)
 		}
 	}
 
